@@ -154,6 +154,7 @@ def run_shape(prog, shape, tier, seed, res):
             rb = result_of(m, m.call('canonicalize_uri_path', [mk_str(b), s3], None))
             return ('spell', a, b, ra, rb, s3)
         es, s3 = build_input(ctx, shape)
+        ctx.x_input = (es, s3)
         r = result_of(m, m.call('canonicalize_uri_path', [mk_str(es), s3], None))
         try:
             ref = ('ok', R.ref_canon_path(ctx, es, s3))
@@ -188,7 +189,11 @@ def run_shape(prog, shape, tier, seed, res):
         res.obligations += 1
         if pr.kind == 'panic':
             ok_, model = ctx.satisfiable()
-            res.findings.append(Finding('panic: %s' % pr.value.msg, {'shape': repr(shape)}, None, None, repr(shape)))
+            inp = {'shape': repr(shape)}
+            if ok_ and getattr(ctx, 'x_input', None):
+                es_, s3_ = ctx.x_input
+                inp = {'paths': [model_bytes(model, es_).decode('latin-1')], 's3': s3_}
+            res.findings.append(Finding('panic: %s' % pr.value.msg, inp, None, None, repr(shape)))
             return
         v = pr.value
         if v[0] == 'spell':
